@@ -230,9 +230,12 @@ class Renderer:
                                               ret, self.block(f["body"])))
         return out
 
-    def package(self, tests, kind="script", extra_items=()):
+    def package(self, tests, kind="script", extra_items=(), main=None):
         lines = ["%s;" % kind]
-        if kind == "script":
+        if kind == "script" and main is not None:
+            ret = "" if main["ret"]["t"] == "unit" else " -> " + r_type(main["ret"])
+            lines.append("fn main()%s %s" % (ret, self.block(main["body"])))
+        elif kind == "script":
             lines.append("fn main() {}")
         lines += list(extra_items)
         lines += self.decls()
@@ -717,6 +720,15 @@ class Gen:
         body += self.stmts(inner, r.randint(1, 3), depth - 1, ret=ret, loop=True)
         return [{"k": "let", "x": i, "mut": True, "ty": T("u64"), "e": lit("u64", 0)},
                 {"k": "while", "c": {"k": "bin", "op": "lt", "l": {"k": "var", "x": i}, "r": lit("u64", n)}, "b": block(body)}]
+
+    def main_fn(self):
+        """a `main` with a few statements and a tail expression of a random type (script-level return path)"""
+        scope = Scope(None)
+        ss = self.stmts(scope, self.r.randint(1, 5), depth=2)
+        ret = self.any_type(2)
+        if ret["t"] == "unit":
+            ret = T("u64")
+        return {"ret": ret, "body": block(ss, self.expr(ret, scope, 2))}
 
     def case(self, name, nstmts=None):
         scope = Scope(None)
